@@ -73,3 +73,85 @@ R.contract(
     ]}},
     locals={"seeds": "Dict[str, float]"},
 )
+
+# ------------------------------------------------------------------ slice clamps in t1_propagate (region contract)
+R.dictrec("T1CfgCaps", {"queue_budget?": "int", "node_budget?": "float", "radius_cap?": "int", "iter_cap?": "int",
+                        "iter_cap_layers?": "int", "relax_cap?": "Optional[int]"})
+R.objtype("T1SliceCtx", {"slice_budgets": "Optional[Dict[str, int]]"})
+R.objtype("T1PlainCtx", {})      # a ctx object that has no `slice_budgets` attribute at all
+
+_SB = "ctx.slice_budgets"
+_HAS = "(not is_none(" + _SB + ") and '%s' in some(" + _SB + "))"
+_QB = "cfg_t1.get('queue_budget', 10000)"
+_BASE_LAYERS = "min(cfg_t1.get('iter_cap_layers', 50), cfg_t1.get('iter_cap', 50))"
+_REGION = ("queue_budget = int(cfg_t1.get(", "effective_queue_budget = (")
+
+R.contract(
+    T1 + "t1_propagate", "C12", name="t1_propagate[slice-clamps]", callee=False,
+    region=_REGION,
+    types={"ctx": "T1SliceCtx", "state": "None", "text": "str", "cfg_t1": "T1CfgCaps"},
+    ensures=[
+        ("pops-budget-is-min-of-config-and-slice",
+         "effective_queue_budget == ite(" + _HAS % "t1_pops" + ", min(" + _QB + ", some(" + _SB + ")['t1_pops']), " + _QB + ")"),
+        ("layer-cap-is-min-of-config-and-slice",
+         "effective_iter_cap_layers == ite(" + _HAS % "t1_iters" + ", min(" + _BASE_LAYERS + ", some(" + _SB + ")['t1_iters']), " + _BASE_LAYERS + ")"),
+        ("never-above-config", "effective_queue_budget <= " + _QB + " and effective_iter_cap_layers <= cfg_t1.get('iter_cap_layers', 50) "
+                               "and effective_iter_cap_layers <= cfg_t1.get('iter_cap', 50)"),
+        ("never-above-slice-cap",
+         "implies(" + _HAS % "t1_pops" + ", effective_queue_budget <= some(" + _SB + ")['t1_pops']) and "
+         "implies(" + _HAS % "t1_iters" + ", effective_iter_cap_layers <= some(" + _SB + ")['t1_iters'])"),
+        ("config-read-as-documented",
+         "queue_budget == " + _QB + " and radius_cap == cfg_t1.get('radius_cap', 4) and node_budget == cfg_t1.get('node_budget', 1.5) "
+         "and iter_cap == cfg_t1.get('iter_cap', 50)"),
+        ("slice-caps-read-only", "seq_eq(" + _SB + ", old(" + _SB + "))"),
+    ],
+    raises="none",
+)
+
+# ------------------------------------------------------------------ output region of _t1_one_graph
+ONE = T1 + "t1_propagate.<locals>._t1_one_graph"
+# node ids are only hashed and compared by this code: modelled as an opaque totally ordered sort (any such key type,
+# python str included); keeps string ordering out of the quantified goals
+R.untype("Nid")
+R.dictlike("T1Delta", {"op": "str", "id": "Un[Nid]"})
+_SORTED_ITEMS = [    # facts about `sorted(acc.items(), key=kv[0])`, proved at loop entry from the sorted()/items() model
+    "forall(m, 0 <= m < len(_iter), _iter[m][0] in acc and acc[_iter[m][0]] == _iter[m][1])",
+    "forall((k, 'Un[Nid]'), k in acc, exists(m, 0 <= m < len(_iter), _iter[m][0] == k))",
+    "forall2(m, m2, 0 <= m and m < m2 and m2 < len(_iter), _iter[m][0] < _iter[m2][0])",
+]
+R.contract(
+    ONE, "C12", name="_t1_one_graph[output-region]", callee=False,
+    region=("deltas_for_gid: List[Dict[str, Any]] = []", "for nid, val in sorted(acc.items()"),
+    types={"gid": "str", "acc": "Dict[Un[Nid], float]"},
+    ensures=[
+        ("ids-strictly-increasing",
+         "forall2(i, j, 0 <= i and i < j and j < len(deltas_for_gid), deltas_for_gid[i]['id'] < deltas_for_gid[j]['id'])"),
+        ("only-touched-nodes-above-eps",
+         "forall(i, 0 <= i < len(deltas_for_gid), deltas_for_gid[i]['op'] == 'upsert_node' and deltas_for_gid[i]['id'] in acc "
+         "and abs(acc[deltas_for_gid[i]['id']]) >= EPS)"),
+        ("every-touched-node-above-eps-reported",
+         "forall((k, 'Un[Nid]'), k in acc and abs(acc[k]) >= EPS, exists(i, 0 <= i < len(deltas_for_gid), deltas_for_gid[i]['id'] == k))"),
+        ("acc-untouched", "seq_eq(acc, old(acc))"),
+    ],
+    raises="none",
+    loops={5: {"inv": _SORTED_ITEMS + [
+        "len(deltas_for_gid) <= _i",
+        "forall(j, 0 <= j < len(deltas_for_gid), deltas_for_gid[j]['op'] == 'upsert_node' and "
+        "  exists(m, 0 <= m < _i, _iter[m][0] == deltas_for_gid[j]['id'] and abs(_iter[m][1]) >= EPS))",
+        "forall(m, 0 <= m < _i, implies(abs(_iter[m][1]) >= EPS, exists(j, 0 <= j < len(deltas_for_gid), deltas_for_gid[j]['id'] == _iter[m][0])))",
+        "forall2(i, j, 0 <= i and i < j and j < len(deltas_for_gid), deltas_for_gid[i]['id'] < deltas_for_gid[j]['id'])",
+        "forall(j, 0 <= j < len(deltas_for_gid), forall(m, _i <= m < len(_iter), deltas_for_gid[j]['id'] < _iter[m][0]))",
+    ]}},
+    locals={"deltas_for_gid": "List[T1Delta]"},
+)
+
+R.contract(
+    T1 + "t1_propagate", "C12", name="t1_propagate[slice-clamps,no-slice-attr]", callee=False,
+    region=_REGION,
+    types={"ctx": "T1PlainCtx", "state": "None", "text": "str", "cfg_t1": "T1CfgCaps"},
+    ensures=[
+        ("no-slice-budgets-means-config-caps",
+         "effective_queue_budget == " + _QB + " and effective_iter_cap_layers == " + _BASE_LAYERS),
+    ],
+    raises="none",
+)
